@@ -17,6 +17,7 @@ CMD_T, DATA_T, CONN_T = 10, 25, 5
 
 
 STAGE_NO = {'banner': 1, 'ehlo': 2, 'helo': 3, 'mail': 4, 'rcpt': 5, 'data': 6, 'eod': 7, 'rset': 8, 'quit': 9, 'auth': 0, 'starttls': 0}
+# (reply ids of the handshake stages are all 0: the queue scenarios never script them)
 
 
 class Down(object):
@@ -24,9 +25,15 @@ class Down(object):
     banner, ehlo, helo, mail, rcpt (list per recipient), data, eod (list for LMTP), rset, quit.
     action: int reply code | 'malformed' | 'disconnect' | 'stall'."""
 
-    def __init__(self, drv, script, lmtp, pipelining, conn_id, auth=False, starttls=None):
+    def __init__(self, drv, script, lmtp, pipelining, conn_id, auth=False, starttls=None, creds=False, imm=False):
         self.drv, self.script, self.lmtp, self.pipelining, self.conn = drv, script, lmtp, pipelining, conn_id
-        self.auth, self.starttls = auth, starttls       # advertise AUTH PLAIN / STARTTLS ('required' | 'optional' | None)
+        # auth: advertise AUTH PLAIN; starttls: None (not offered) | 'optional' | 'required' (offered; the relay insists on
+        # it) | 'required-unoffered' (not offered, the relay insists); creds: the relay has credentials; imm: TLS first
+        self.auth, self.starttls, self.creds, self.imm = auth, starttls, creds, imm
+        self.round = 0          # 1 once STARTTLS has been asked for: the EHLO that follows is the second one
+        self.ehlo_ok = False
+        self.dead = False       # the socket went with a failed TLS handshake
+        self.enc = False
         self.inbuf = b''
         self.out = b''
         self.ev = Event()
@@ -39,7 +46,29 @@ class Down(object):
         self.trans = 0          # index of the current transaction (= MAIL commands seen before it) on this connection
         self.nmail = 0
         self.marker = 0
-        self.act('banner', 0)
+        if not imm:
+            self.act('banner', 0)
+
+    # ---- the TLS layer, abstractly: the relay is given a context object whose wrap_socket() asks the script what the
+    # handshake does.  A failed handshake takes the socket with it, as gevent's SSLSocket does (the wrapped socket is
+    # detached and closed: measured with a real handshake against an untrusted certificate, DESIGN.md section 5 C11)
+    def handshake(self):
+        import ssl
+        a = self.get('tls', 0)
+        if self.stalled or self.closed_by_peer:
+            a = 'stall'
+        self.drv.log(t='peer', stage='tls', i=0, act='code' if a is None else a, code=220 if a is None else 0, conn=self.conn,
+                     trans=self.trans, m=0)
+        if a == 'stall':
+            self.stalled = True
+            Event().wait()
+        if a == 'tlsfail':
+            self.dead = True
+            raise ssl.SSLError(1, '[SSL] scripted handshake failure')
+        self.enc = True
+        if self.imm:
+            self.act('banner', 0)
+        return self
 
     def fileno(self):
         return -1
@@ -54,6 +83,8 @@ class Down(object):
         self.ev.set()
 
     def get(self, stage, i):
+        if stage == 'starttls_opt' and stage not in self.script:
+            stage = 'starttls'
         v = self.script.get(stage, None)
         if isinstance(v, list):
             v = v[i] if i < len(v) else None
@@ -85,7 +116,10 @@ class Down(object):
             text += ' rid%d' % (a * 10 + STAGE_NO.get(stage, 0))
         if stage in ('ehlo',) and a == 250:
             lines = ['downstream'] + (['PIPELINING'] if self.pipelining else []) + (['AUTH PLAIN'] if self.auth else []) + \
-                    (['STARTTLS'] if self.starttls else []) + ['8BITMIME', 'SMTPUTF8']
+                    (['STARTTLS'] if self.starttls in ('optional', 'required') else []) + ['8BITMIME', 'SMTPUTF8']
+            self.ehlo_ok = True
+            if self.creds and not self.auth:       # the relay must authenticate and this reply does not offer AUTH
+                self.drv.log(t='peer', stage='ehlo', i=i, act='noauth', code=0, conn=self.conn, trans=self.trans, m=0)
             self.out += ''.join('250%s%s\r\n' % ('-' if k < len(lines) - 1 else ' ', ln) for k, ln in enumerate(lines)).encode()
         else:
             self.out += ('%d %s\r\n' % (a, text)).encode()
@@ -93,6 +127,10 @@ class Down(object):
         return a
 
     def sendall(self, data):
+        if self.dead:
+            import errno
+            import socket
+            raise socket.error(errno.EBADF, 'Bad file descriptor')
         if self.closed_by_peer:
             import errno
             import socket
@@ -106,9 +144,11 @@ class Down(object):
                 line, self.inbuf = self.inbuf[:k + 1], self.inbuf[k + 1:]
                 verb = line.strip().split(b' ')[0].upper()
                 if verb in (b'EHLO', b'LHLO'):
-                    self.act('ehlo', 0)
+                    self.act('ehlo', self.round)
                 elif verb == b'HELO':
-                    self.act('helo', 0)
+                    r = self.act('helo', self.round)
+                    if r == 250 and self.creds and not (self.auth and self.ehlo_ok):
+                        self.drv.log(t='peer', stage='helo', i=self.round, act='noauth', code=0, conn=self.conn, trans=self.trans, m=0)
                 elif verb == b'MAIL':
                     self.nrcpt = 0
                     self.acc = []
@@ -131,8 +171,9 @@ class Down(object):
                     self.act('rset', 0)
                     self.acc = []
                 elif verb == b'STARTTLS':
-                    # only refusals are scripted: a completed handshake needs a real socket (that is C08's harness)
-                    self.act('starttls' if self.starttls == 'required' else 'starttls_opt', 0, default=454)
+                    # 220: the relay now calls wrap_socket() of the context it was given (handshake() above)
+                    self.act('starttls' if (self.starttls or '').startswith('required') else 'starttls_opt', 0, default=220)
+                    self.round = 1
                 elif verb == b'AUTH':
                     self.act('auth', 0, default=235)
                 elif verb == b'QUIT':
@@ -163,6 +204,10 @@ class Down(object):
                 self.acc = []
 
     def recv(self, n):
+        if self.dead:
+            import errno
+            import socket
+            raise socket.error(errno.EBADF, 'Bad file descriptor')
         while not self.out:
             if self.closed_by_peer or self.closed:
                 return b''
@@ -172,8 +217,19 @@ class Down(object):
         return d
 
 
+class FakeContext(object):
+    """stands in for the SSLContext the relay is configured with (constructor parameter `context`)"""
+
+    def wrap_socket(self, sock, server_hostname=None, **kw):
+        return sock.handshake()
+
+    def session_stats(self):
+        return {}
+
+
 class RelayRun(object):
-    def __init__(self, lmtp, pipelining, scripts, pool_size=None, idle_timeout=None, connect=None, auth=False, starttls=None):
+    def __init__(self, lmtp, pipelining, scripts, pool_size=None, idle_timeout=None, connect=None, auth=False, starttls=None,
+                 creds=None, imm=False):
         """scripts: list of per-connection scripts (k-th connection uses scripts[k], last one repeated)"""
         CLOCK.reset(1000.0)
         self.ev = []
@@ -183,11 +239,17 @@ class RelayRun(object):
         self.connect = connect or {}
         cls = StaticLmtpRelay if lmtp else StaticSmtpRelay
         self.auth, self.starttls = auth, starttls
+        self.creds = auth if creds is None else creds
+        self.imm = imm
         extra = {}
-        if auth:
+        if self.creds:
             extra['credentials'] = ('user', 'secret')
-        if starttls == 'required':
+        if (starttls or '').startswith('required'):
             extra['tls_required'] = True
+        if imm:
+            extra['tls_immediately'] = True
+        if starttls or imm:
+            extra['context'] = FakeContext()
         self.relay = cls('198.51.100.7', 25, pool_size=pool_size, socket_creator=self.creator, ehlo_as='relay.example',
                          connect_timeout=CONN_T, command_timeout=CMD_T, data_timeout=DATA_T, idle_timeout=idle_timeout, **extra)
         self.greenlets = []
@@ -207,7 +269,8 @@ class RelayRun(object):
             raise socket.error(errno.ECONNREFUSED, 'refused')
         if act == 'stall':
             Event().wait()
-        return Down(self, self.scripts[min(k, len(self.scripts) - 1)], self.lmtp, self.pipelining, k, auth=self.auth, starttls=self.starttls)
+        return Down(self, self.scripts[min(k, len(self.scripts) - 1)], self.lmtp, self.pipelining, k, auth=self.auth, starttls=self.starttls,
+                    creds=self.creds, imm=self.imm)
 
     def attempt(self, req, nrcpt, sender=None, addrs=None):
         """addrs: optional list (one entry per recipient) of address numbers, so that an address can be listed twice"""
